@@ -16,6 +16,7 @@ EXPLANATION = (
     'S3Transfer.download_file (single and ranged, serial pool), process-pool worker/submitter in-process (see C19).')
 
 faulted = FT.faulted
+faulted_kind = FT.faulted_kind
 
 
 def two_faults(mode, prev, size, thr, chunk, io, f1, f2):
@@ -112,6 +113,17 @@ OBLIGATIONS = FT.fault_obligations('c06', 'C06', which=['down-path']) + [
 ]
 # the single-GET cases only make sense for the 'single' label
 [o for o in OBLIGATIONS if o['id'] == 'C06.2'][0]['cases'] = [('single', False), ('single', True)]
+
+OBLIGATIONS += [dict(
+    id='C06.fk-down-path-prev', impl='faulted_kind', params=FT.PARAMS + ', fk: int', cases=[('c06', 'down-path', True)],
+    pre=FT.BASE + ['fk == 1', 'phase == 0'], splits=[FT._DN1, FT._DN2], timeout=(170, 900),
+    bounds='as C06.f-down-path-prev, with the injected fault an OSError (what a failing open / write / close / rename '
+           'really raises): recovery code keyed on OSError runs.  OSUtils.rename_file itself is executed from the '
+           'source - only compat.rename_file and the os.path.isfile / exists / os.remove it may reach are answered by '
+           'the fake file system',
+    encodes=['OSUtils.rename_file', 'IORenameFileTask._main', 'DownloadFilenameOutputManager', 'Task.__call__'],
+    assumptions=['S1', 'S2', 'identity-content data', 'serial schedule (NonThreadedExecutor)',
+                 'rename primitive = os.replace semantics (atomic)'])]
 
 from harness.nsrun import ns_fault_obligations, nsfaulted  # noqa: E402
 OBLIGATIONS += ns_fault_obligations('c06', 'C06', ['down-path'])
